@@ -31,7 +31,7 @@ def scenario(r):
     idl = 'in.pydjinni'
     if idl_kind != 'missing_idl':
         files[idl] = IDLS[idl_kind]
-    cfg_kind = r.choice(['default'] * 6 + ['named'] * 2 + ['none_opts'] * 3 + ['missing', 'invalid_yaml', 'bad_key', 'bad_ext'])
+    cfg_kind = r.choice(['default'] * 6 + ['named'] * 2 + ['none_opts'] * 3 + ['missing', 'invalid_yaml', 'bad_key', 'bad_ext', 'bad_list_elem', 'bad_nested'])
     config, opts = None, []
     if cfg_kind == 'default':
         files['pydjinni.yaml'] = YAML
@@ -48,6 +48,11 @@ def scenario(r):
         files['pydjinni.yaml'] = 'generate: [unclosed\n'
     elif cfg_kind == 'bad_key':
         files['pydjinni.yaml'] = YAML + 'bogus: 1\n'
+    elif cfg_kind == 'bad_list_elem':
+        # an ill-typed value INSIDE a list (the error location carries an integer index)
+        files['pydjinni.yaml'] = YAML + r.choice(['  default_deriving: [eq, bogus]\n', '  include_dirs: [includes, [not, a, path]]\n', '  default_deriving: [ord, 7]\n'])
+    elif cfg_kind == 'bad_nested':
+        files['pydjinni.yaml'] = YAML.replace('    out: out/cpp\n', '    out: out/cpp\n    identifier:\n      type:\n        style: Weird\n')
     elif cfg_kind == 'bad_ext':
         files['c.ini'] = 'x'; config = 'c.ini'
     x = r.random()
@@ -57,6 +62,8 @@ def scenario(r):
         opts = opts + ['generate.cpp.out=other/cpp']
     elif x < 0.33:
         opts = opts + ['generate.cpp.identifier.type=Weird']                  # ill-typed
+    elif x < 0.40:
+        opts = opts + [r.choice(['generate.default_deriving=[eq,bogus]', 'generate.default_deriving=[bogus]', 'generate.include_dirs=[a,b]'])]   # (ill-typed) list elements
     targets = r.sample(['cpp', 'java', 'objc', 'yaml'], r.randint(1, 3))
     clean = r.random() < 0.4
     leftovers = []
